@@ -112,6 +112,7 @@ func main() {
 		pin       = flag.String("pin", "", "pin vector json (translator validation)")
 		tags      = flag.String("tags", "verif", "build tags")
 		dumpFn    = flag.String("dump", "", "dump SSA of function and exit")
+		emitOv    = flag.String("emit-overlay", "", "write scaled source files into this directory, print go-overlay json, exit")
 	)
 	flag.IntVar(&caseIndex, "case", 0, "case index (vCase)")
 	flag.BoolVar(&verbose, "v", false, "verbose")
@@ -158,6 +159,23 @@ func main() {
 		}
 	}
 
+	if *emitOv != "" {
+		os.MkdirAll(*emitOv, 0755)
+		repl := map[string]string{}
+		i := 0
+		for path, src := range overlay {
+			if strings.Contains(filepath.Base(path), "zz_verif_") {
+				continue
+			}
+			i++
+			dst := filepath.Join(*emitOv, fmt.Sprintf("scaled_%d_%s", i, filepath.Base(path)))
+			os.WriteFile(dst, src, 0644)
+			repl[path] = dst
+		}
+		b, _ := json.Marshal(repl)
+		os.Stdout.Write(b)
+		return
+	}
 	cfg := &packages.Config{Mode: packages.LoadAllSyntax, Dir: *repo, Overlay: overlay, BuildFlags: []string{"-tags=" + *tags},
 		Env: append(os.Environ(), "GOFLAGS=-mod=mod", "GOPROXY=off", "GOSUMDB=off", "GOTOOLCHAIN=local")}
 	pkgs, err := packages.Load(cfg, ".", "./fs", "./internal/hash")
@@ -364,7 +382,8 @@ func rewriteConst(repo, name, val string, overlay map[string][]byte) error {
 						if n.Name == name && i < len(vs.Values) {
 							a := fset.Position(vs.Values[i].Pos()).Offset
 							b := fset.Position(vs.Values[i].End()).Offset
-							ns := append(append(append([]byte(nil), src[:a]...), []byte(val)...), src[b:]...)
+							nv := fmt.Sprintf("(%s + 0*(%s))", val, src[a:b])
+							ns := append(append(append([]byte(nil), src[:a]...), []byte(nv)...), src[b:]...)
 							overlay[f] = ns
 							return nil
 						}
